@@ -14,6 +14,7 @@ NAME_RE = [
     (re.compile(r"^_var__(.+)$"), lambda m: ("V", m.group(1))),
     (re.compile(r"^_cov__(.+?)__(.+)$"), lambda m: ("K", m.group(1), m.group(2))),
     (re.compile(r"^_demean__(.+)$"), lambda m: ("D", m.group(1))),
+    (re.compile(r"^_group_mean__(.+)$"), lambda m: ("G", m.group(1))),
 ]
 
 
@@ -74,64 +75,94 @@ def arg(a, user_cols):
 
 class NwRecorder:
     def __init__(self):
-        self.stages = []        # ("W", {name: expr}) | ("A", group or None, {name: expr})
+        self.stages = []        # ("W", {name: expr}) | ("J", {name: expr}) | ("A", group or None, {name: expr})
         self.collects = []      # (n_rows, columns) of every materialisation
         self.user_cols = None
 
 
 @contextlib.contextmanager
 def narwhals_capture():
+    """Records the DATAFLOW of the LazyFrame operations `aggr.py` performs: every frame is mapped to the
+    pipeline (tuple of stages) that derives it from the source; `join` is accepted only in the shape
+    `f.join(f.group_by(g).agg(…), on=g, how="left")` (stage J); the pipeline of the collected frame is the result."""
     import narwhals as nw
     import narwhals.group_by as ngb
     rec = NwRecorder()
     LF = nw.LazyFrame
     saved = dict(with_columns=LF.with_columns, select=LF.select, group_by=LF.group_by, collect=LF.collect,
-                 agg=ngb.LazyGroupBy.agg)
-    groups = {}
+                 join=LF.join, agg=ngb.LazyGroupBy.agg)
+    deriv = {}          # id(frame) -> tuple of stages
+    groups = {}         # id(group_by object) -> (keys, pipeline of the source frame)
+    keep = []           # keeps every object alive so that ids are not reused
+
+    def pipe(f):
+        return deriv.get(id(f), ())
+
+    def note(out, stages):
+        keep.append(out)
+        deriv[id(out)] = stages
+        return out
+
+    def schema(self):
+        if rec.user_cols is None:
+            rec.user_cols = set(self.collect_schema().names())
 
     def with_columns(self, *exprs, **named):
         if exprs:
             raise ValueError("positional with_columns")
-        if rec.user_cols is None:
-            rec.user_cols = set(self.collect_schema().names())
-        rec.stages.append(("W", {parse_name(k, rec.user_cols): nw_expr(v, rec.user_cols) for k, v in named.items()}))
-        return saved["with_columns"](self, *exprs, **named)
+        schema(self)
+        st = ("W", {parse_name(k, rec.user_cols): nw_expr(v, rec.user_cols) for k, v in named.items()})
+        return note(saved["with_columns"](self, *exprs, **named), pipe(self) + (st,))
 
     def select(self, *exprs, **named):
         if exprs:
-            return saved["select"](self, *exprs, **named)
-        if rec.user_cols is None:
-            rec.user_cols = set(self.collect_schema().names())
-        rec.stages.append(("A", None, {parse_name(k, rec.user_cols): nw_expr(v, rec.user_cols) for k, v in named.items()}))
-        return saved["select"](self, *exprs, **named)
+            raise ValueError("positional select")
+        schema(self)
+        st = ("A", None, {parse_name(k, rec.user_cols): nw_expr(v, rec.user_cols) for k, v in named.items()})
+        return note(saved["select"](self, *exprs, **named), pipe(self) + (st,))
 
     def group_by(self, *keys, **kw):
-        if rec.user_cols is None:
-            rec.user_cols = set(self.collect_schema().names())
+        schema(self)
+        if kw:
+            raise ValueError(f"group_by options {kw}")
         g = saved["group_by"](self, *keys, **kw)
-        groups[id(g)] = tuple(keys)
+        keep.append(g)
+        groups[id(g)] = (tuple(keys), pipe(self))
         return g
 
     def agg(self, *exprs, **named):
-        rec.stages.append(("A", groups.get(id(self)), {parse_name(k, rec.user_cols): nw_expr(v, rec.user_cols)
-                                                       for k, v in named.items()}))
-        return saved["agg"](self, *exprs, **named)
+        if exprs:
+            raise ValueError("positional agg")
+        keys, src = groups.get(id(self), ((), ()))
+        st = ("A", keys, {parse_name(k, rec.user_cols): nw_expr(v, rec.user_cols) for k, v in named.items()})
+        return note(saved["agg"](self, *exprs, **named), src + (st,))
+
+    def join(self, other, on=None, how="inner", **kw):
+        left, right = pipe(self), pipe(other)
+        on_t = (on,) if isinstance(on, str) else tuple(on or ())
+        extra = {k: v for k, v in kw.items() if v is not None and not (k == "suffix" and v == "_right")}
+        if (how != "left" or extra or len(right) != len(left) + 1 or right[:-1] != left or right[-1][0] != "A"
+                or right[-1][1] != on_t or len(on_t) != 1):
+            raise ValueError(f"join not of the form f.join(f.group_by(g).agg(..), on=g, how='left'): how={how} on={on} {extra}")
+        st = ("J", right[-1][2], on_t)
+        return note(saved["join"](self, other, on=on, how=how, **kw), left + (st,))
 
     def collect(self, *a, **kw):
         out = saved["collect"](self, *a, **kw)
+        rec.stages = list(pipe(self))
         try:
             rec.collects.append((out.shape[0], tuple(out.columns)))
         except Exception:  # noqa: BLE001
             rec.collects.append((None, ()))
         return out
 
-    LF.with_columns, LF.select, LF.group_by, LF.collect = with_columns, select, group_by, collect
+    LF.with_columns, LF.select, LF.group_by, LF.collect, LF.join = with_columns, select, group_by, collect, join
     ngb.LazyGroupBy.agg = agg
     try:
         yield rec
     finally:
-        LF.with_columns, LF.select, LF.group_by, LF.collect = (saved["with_columns"], saved["select"],
-                                                                saved["group_by"], saved["collect"])
+        LF.with_columns, LF.select, LF.group_by, LF.collect, LF.join = (
+            saved["with_columns"], saved["select"], saved["group_by"], saved["collect"], saved["join"])
         ngb.LazyGroupBy.agg = saved["agg"]
 
 
@@ -285,6 +316,11 @@ def query_wire(stages, group, drop_casts=False):
         if st[0] == "W":
             defs = st[1]
             out.append(f"W {len(defs)}")
+        elif st[0] == "J":
+            defs = st[1]
+            if st[2] != (group,):
+                raise ValueError(f"joined on {st[2]}, expected {group}")
+            out.append(f"J {len(defs)}")
         else:
             g = st[1]
             if g not in (None, (group,)) and not (g == () and group is None):
